@@ -241,19 +241,20 @@ def _code_build(name):
 FAMILIES = {}
 for _n in ("one_hot_mux", "OneHotMux", "OneHotMux.create"):
     FAMILIES[_n] = Family(_n, cfgs=_mux_cfgs_for(_n), domain=_mux_domain(_n), build=_mux_build(_n),
-                          on_raise=RAISED if _n == "OneHotMux" else None)
-FAMILIES["MultiPriorityEncoder"] = Family("MultiPriorityEncoder", cfgs=_enc_cfgs, build=_prio_build,
+                          on_raise=RAISED)
+FAMILIES["MultiPriorityEncoder"] = Family("MultiPriorityEncoder", cfgs=_enc_cfgs, build=_prio_build, on_raise=[RAISED],
                                           domain=lambda cfg: ([x] for x in range(1 << cfg["w"])))
 FAMILIES["RingMultiPriorityEncoder"] = Family(
-    "RingMultiPriorityEncoder", cfgs=lambda tier: _enc_cfgs(tier, ring=True), build=_ring_build,
+    "RingMultiPriorityEncoder", cfgs=lambda tier: _enc_cfgs(tier, ring=True), build=_ring_build, on_raise=[RAISED],
     domain=lambda cfg: ([x, f, la] for x in range(1 << cfg["w"]) for f in range(cfg["w"]) for la in range(cfg["w"])))
-FAMILIES["StableSelectingNetwork"] = Family("StableSelectingNetwork", cfgs=_ssn_cfgs, build=_ssn_build,
+FAMILIES["StableSelectingNetwork"] = Family("StableSelectingNetwork", cfgs=_ssn_cfgs, build=_ssn_build, on_raise=[RAISED],
                                             domain=_ssn_domain)
 for _n in ("Encoder", "PriorityEncoder", "GrayEncoder", "GrayDecoder"):
     FAMILIES[_n] = Family(_n, cfgs=_code_cfgs, build=_code_build(_n),
+                          on_raise=[RAISED] if "Gray" not in _n else RAISED,
                           domain=lambda cfg: ([x] for x in range(1 << cfg["w"])))
 for _n in ("Decoder", "PriorityDecoder"):
-    FAMILIES[_n] = Family(_n, cfgs=_code_cfgs, build=_code_build(_n),
+    FAMILIES[_n] = Family(_n, cfgs=_code_cfgs, build=_code_build(_n), on_raise=RAISED,
                           domain=lambda cfg: ([i, n] for i in range(cfg["w"]) for n in (0, 1)))
 
 LAWS = ["TypeOK", "MuxLaw", "PrioLaw", "RingLaw", "SelectLaw", "CodingLaw", "GrayLaw"]
